@@ -65,6 +65,7 @@ type Machine struct {
 	// per path
 	globals      map[*ssa.Global]Ptr
 	pc           []*Term
+	known        map[*Term]bool
 	pcSent       int
 	prefix       []int
 	taken        []int
@@ -117,6 +118,7 @@ func NewMachine(prog *Program, cfg Config, solverBin string, rlimit, tmo int) (*
 func (m *Machine) resetPath(prefix []int) {
 	m.globals = map[*ssa.Global]Ptr{}
 	m.pc = m.pc[:0]
+	m.known = map[*Term]bool{}
 	m.pcSent = 0
 	m.prefix = prefix
 	m.taken = nil
@@ -158,6 +160,12 @@ func (m *Machine) addPC(c *Term) {
 		return
 	}
 	m.pc = append(m.pc, c)
+	// remember literal truth values so that re-testing the same condition costs nothing
+	if c.Op == ONot {
+		m.known[c.Args[0]] = false
+	} else {
+		m.known[c] = true
+	}
 }
 
 func (m *Machine) syncPC() {
@@ -211,6 +219,14 @@ func (m *Machine) decide(n int, feas func(i int) bool) int {
 func (m *Machine) branch(c *Term) bool {
 	if c.IsConst() {
 		return c.C == 1
+	}
+	if v, ok := m.known[c]; ok {
+		return v
+	}
+	if c.Op == ONot {
+		if v, ok := m.known[c.Args[0]]; ok {
+			return !v
+		}
 	}
 	if m.spec > 0 {
 		panic(specAbort{})
